@@ -12,6 +12,7 @@ CRATE_FILES = {
     "candid_derive": "candid_derive.procmacro.json",
     "ic_principal": "ic_principal.rlib.json",
     "didc": "didc.executable.json",
+    "witness": "witness.rlib.json",   # only in Facts("witness"): /verif/witness, expands candid's macro_rules!
 }
 
 
